@@ -14,6 +14,7 @@ import (
 
 	"github.com/samber/lo"
 	"github.com/synnaxlabs/cesium/internal/channel"
+	"github.com/synnaxlabs/cesium/internal/meta"
 	"github.com/synnaxlabs/cesium/internal/unary"
 	"github.com/synnaxlabs/cesium/internal/version"
 	"github.com/synnaxlabs/cesium/internal/virtual"
@@ -149,8 +150,32 @@ func (db *DB) createChannel(ctx context.Context, ch Channel) (err error) {
 		ch.Index = ch.Key
 	}
 	ch.Version = version.VersionCurrent
+	if err = db.stageChannelDir(ctx, ch); err != nil {
+		return err
+	}
 	err = db.openVirtualOrUnary(ctx, ch)
 	return err
+}
+
+// stageChannelDir builds the directory of a new channel, meta file included, under a name
+// that Open skips (as it does for the directories DeleteChannel leaves behind) and then
+// renames it to the channel's key. Without this, a process that dies between creating
+// the directory and renaming its meta file into place leaves a keyed directory without a
+// meta file, and Open refuses the whole database from then on.
+func (db *DB) stageChannelDir(ctx context.Context, ch Channel) error {
+	dir := keyToDirName(ch.Key)
+	if exists, err := db.fs.Exists(dir); err != nil || exists {
+		return err
+	}
+	staged := dir + "-CREATE"
+	stagedFS, err := db.fs.Sub(staged)
+	if err != nil {
+		return err
+	}
+	if err = meta.Create(ctx, stagedFS, db.metaCodec, ch); err != nil {
+		return err
+	}
+	return db.fs.Rename(staged, dir)
 }
 
 func indexChannelNotFoundError(key ChannelKey) error {
